@@ -101,6 +101,11 @@ def gen(rng, tier):
                 b = bytes([rng.choice([2, 3, 2, 3, 0, 4, 5])]) + b[1:]
             yield Case("ptfrombytes", [c, hx(b)], "neg-random")
             yield Case("pubkey", [c, hx(b)], "neg-random-key")
+            if c not in ORD and ln == 32:
+                # the library's own 33-byte spelling (0x00 prefix) of the same 32 bytes: about half of random strings are not curve points,
+                # and the prefix must not let them through; other prefix values are never a key
+                yield Case("pubkey", [c, hx(b"\x00" + b)], "prefixed-random-key")
+                yield Case("pubkey", [c, hx(bytes([rng.choice([1, 2, 0xed, 0xff])]) + b)], "neg-bad-prefix-key")
     for c in ORD:
         p = P[c]
         enc = gmul(c, 5)
